@@ -51,6 +51,15 @@ CHECKS["C10"] = dict(
          "Only the quiet lookup path (XalanTransformer default) is driven so far.",
     technique="TLA+ definition of template conflict resolution evaluated by TLC; trace validation of TraceListener picks")
 
+CHECKS["C15"] = dict(
+    category="model_checking", design_ref="DESIGN.md §5 C15",
+    text="XPathSem!KeyNodes is XSLT 12.2 (nodes of the context node's document that match a declaration of that name and have the value among the "
+         "use values; union over a node-set argument). Seeded declaration sets and lookup sequences (string / node-set / number arguments, main and "
+         "document()-loaded documents) are run in given, reversed and shuffled order; each lookup's delivered node list is observed through the "
+         "TraceListener and must equal KeyNodes in document order, so a result that depends on lookup history is rejected.",
+    note="Trusted: TLC, stylesheet renderer, TraceListener selection events, node-id projection (document numbering by first appearance).",
+    technique="TLA+ definition of key() evaluated by TLC; trace validation of recorded lookups in permuted orders")
+
 NOT_YET = {
 }
 
